@@ -292,6 +292,10 @@ def gen_spec(rng, idx, small=False):
         p["length"] = round(rng.uniform(10, 1500), 1)
         p["diam"] = rng.choice(diam_choices)
         p["rough"] = rng.choice([80, 100, 120, 140])
+    # registration order != sorted order of the names (an edit that pairs tables by position after sorting names must show)
+    for lst in (juncs, res, tanks, pumps):
+        if rng.random() < 0.5:
+            lst.reverse()
     hstep = step if step != 7000 else 3500
     eff = rng.choice([75, 75.0, 60, 82.5, 100, None]) if (pumps) else rng.choice([75, None])
     spec = {
